@@ -128,11 +128,25 @@ func TestPropPolicy(t *testing.T) {
 			return false
 		}
 		nops := rapid.IntRange(2, 14).Draw(rt, "nops")
+		var lastSub *subscriber
+		lastDir := -1
+		var lastSize uint32
+		flowOfLast := func() *flow {
+			if lastSub == nil || removed[lastSub] {
+				return nil
+			}
+			return flowOf(lastSub, lastDir)
+		}
 		for op := 0; op < nops; op++ {
 			s := subs[rapid.IntRange(0, len(subs)-1).Draw(rt, "sub")]
 			switch k := rapid.IntRange(0, 9).Draw(rt, "op"); {
 			case k <= 4: // a burst of frames at one instant (or with small gaps) to/from s
 				dir := rapid.IntRange(0, 1).Draw(rt, "dir")
+				// half of the bursts continue the flow of the previous burst (drain, wait, send again)
+				if lastSub != nil && chance(rt, "sameFlow", 1, 2) {
+					s, dir = lastSub, lastDir
+				}
+				lastSub, lastDir = s, dir
 				size := uint32(logUniform(rt, 34, maxPkt, "size"))
 				if f := flowOf(s, dir); f != nil && !removed[s] && f.rate != 0 && chance(rt, "sizeFit", 2, 3) {
 					// a size that empties the bucket within ~20 packets
@@ -144,6 +158,7 @@ func TestPropPolicy(t *testing.T) {
 					gap = logUniform(rt, 0, 50_000_000, "burstGap")
 				}
 				hist = append(hist, fmt.Sprintf("send(%d.%d.%d.%d,%s,%dx%dB,+%dns)", s.IP[0], s.IP[1], s.IP[2], s.IP[3], dirName(dir), n, size, gap))
+				lastSize = size
 				fr, o := frameFor(dir, s.IP, oth, size)
 				for i := 0; i < n; i++ {
 					clock += gap
@@ -169,6 +184,12 @@ func TestPropPolicy(t *testing.T) {
 				}
 			case k <= 6: // time passes
 				g := logUniform(rt, 0, tenDays, "idle")
+				// half of the idle periods are on the scale of what a few packets of the previous burst cost at
+				// that flow's contracted rate (so that a drained bucket admits again, but not everything)
+				if f := flowOfLast(); f != nil && f.rate >= 8 && lastSize > 0 && chance(rt, "idleTau", 1, 2) {
+					tau := div128ns(uint64(lastSize), f.rate/8)
+					g = logUniform(rt, tau/4, min64(tenDays, tau*64+1), "idle.tau")
+				}
 				clock += g
 				hist = append(hist, fmt.Sprintf("idle(%dns)", g))
 			case k == 7: // policy update (CoA / re-authentication): new numbers for the same address
@@ -238,4 +259,10 @@ func TestPropPolicy(t *testing.T) {
 		vstat.Case(nt, vstat.Hash("policy", fmt.Sprint(hist), clock),
 			func() any { return map[string]any{"layer": "policy", "history": hist} }, dedup(cls)...)
 	})
+}
+
+// div128ns returns the time (ns) r bytes/s need to earn size bytes, saturating.
+func div128ns(size, r uint64) uint64 {
+	hi, lo := mul64(size, 1_000_000_000)
+	return div128(hi, lo, r)
 }
